@@ -44,6 +44,8 @@ import (
 //	S  a TLS client (crypto/tls over the virtual connection): a non-terminal route terminates
 //	   TLS with the real l4tls handler, the plaintext matches no further route, and the
 //	   connection handed over must read the plaintext and expose the TLS connection state
+//	X  not a connection: the wrapped listener's Accept fails once with a transient error that is
+//	   not a timeout (EMFILE ...); the wrapper goes on accepting
 //	U  stays undecided: matching times out
 //	E  a matcher fails with an error
 type Scn struct {
@@ -196,6 +198,13 @@ func execute(x *explore.Exec, sc *Scn) *result {
 				closeAll()
 				res.closed = true
 			}
+			if sc.Conns[i] == 'X' {
+				vsched.Point("inject accept error")
+				inners[i%len(inners)].InjectErr(vnet.TempError{})
+				res.clients = append(res.clients, nil)
+				res.servers = append(res.servers, nil)
+				continue
+			}
 			cl, sv := vnet.Pipe(fmt.Sprintf("c%d", i), fmt.Sprintf("s%d", i), vnet.TCP("192.0.2.9", 40000+i), vnet.TCP("10.0.0.1", 443))
 			sv.Menu = hm.StdMenu(1, 2)
 			res.clients = append(res.clients, cl)
@@ -250,7 +259,7 @@ func execute(x *explore.Exec, sc *Scn) *result {
 		for _, in := range inners {
 			for _, c := range in.AcceptedConns {
 				for i, sv := range res.servers {
-					if c == net.Conn(sv) {
+					if sv != nil && c == net.Conn(sv) {
 						res.taken[i] = true
 					}
 				}
@@ -297,6 +306,9 @@ func check(x *explore.Exec, sc *Scn, r *result) {
 	}
 	for i := 0; i < len(sc.Conns); i++ {
 		kind := sc.Conns[i]
+		if kind == 'X' {
+			continue
+		}
 		if !r.taken[i] {
 			continue // never accepted from the underlying listener (it was closed first): not layer4's to handle
 		}
@@ -416,6 +428,16 @@ func scenarios(tier string, yield0 func(any) bool) {
 		// client's stream from the first unconsumed byte (plain, after a consuming route, after
 		// PROXY-header stripping, after TLS termination followed by further matching)
 		mixes = []string{"F", "G", "W", "S", "FG", "WS", "GW"}
+	}
+	// a transient accept error between arrivals
+	if os.Getenv("VERIF_C13_SUBSET") == "" {
+		for _, m := range []string{"XF", "FXF", "FXT", "XFXF"} {
+			for _, cons := range []string{"eager", "late"} {
+				if !yield(&Scn{Conns: m, Consumer: cons, CloseAt: -1, Procs: 1, Payload: 3}) {
+					return
+				}
+			}
+		}
 	}
 	// one wrapper instance around two listeners
 	if os.Getenv("VERIF_C13_SUBSET") == "" {
